@@ -16,7 +16,7 @@ PROPS = {
             "quick": {"timeout": "20s", "bounds": "value universe U(1,2): 13 runtime types; strings/bytes of 0..2 symbolic bytes; containers of 0..2 elements from {int, 1-byte string, undefined, bool}; full int64/float64/rune/sec,nsec payloads; copy checked on U(2,2)", "cross": 2},
             "thorough": {"timeout": "60s", "bounds": "value universe U(1,3): strings/bytes of 0..3 symbolic bytes; containers of 0..3 elements; copy on U(2,3)", "cross": 3},
         },
-        "reach": {"C10_EqSymmetric": ["eqsym"], "C10_EqScript": ["eqscript"], "C10_OrderDual": ["orderdual"], "C10_Trichotomy": ["tricho"],
+        "reach": {"C10_EqSymmetric": ["eqsym"], "C10_EqScript": ["eqscript"], "C10_EqSelf": ["eqself"], "C10_OrderDual": ["orderdual"], "C10_Trichotomy": ["tricho"],
                   "C10_IntChar": ["intchar"], "C10_Truthy": ["truthy"], "C10_TruthyScript": ["truthyscript"], "C10_Copy": ["copy"], "C10_CopyNest": ["copynest"], "C10_Conv": ["conv"]},
         "assumptions": [
             "time values are time.Unix(sec,nsec) with 0<=nsec<1e9 and |sec|<2^55 (no monotonic reading, Local location)",
@@ -237,7 +237,7 @@ PROPS["C15"] = {
         "quick": {"timeout": "20s", "maxsteps": 12000000, "bounds": "Go universe: nil, string(0..2 bytes), int, int64, bool, rune, byte, float64, []byte, error, time.Time, []interface{} of 0..2 scalars, map[string]interface{} with a nested slice, []Object, map[string]Object, Object, payloads symbolic; accessors on U(1,2); histories: 2 Add/Remove steps, Compile, then 3 calls from {Set, Run, Get/IsDefined, Clone (the history may continue on the clone), GetAll} over 4 scripts and 3 names (the third a fresh name or the name of a builtin function) with symbolic values, against a map model; nil/undefined host variables (added, set after compile, through 0..2 clones, run once or twice) inspected by the script", "cross": 2},
         "thorough": {"timeout": "60s", "maxsteps": 12000000, "bounds": "as quick with 5 post-compile calls", "cross": 3},
     },
-    "reach": {"C15_RoundTrip": ["roundtrip"], "C15_Accessors": ["accessors"], "C15_History": ["history"], "C15_Undefined": ["undefined"]},
+    "reach": {"C15_CancelledRun": ["cancelledrun"], "C15_AccessorStrings": ["accessorstrings"], "C15_RoundTrip": ["roundtrip"], "C15_Accessors": ["accessors"], "C15_History": ["history"], "C15_Undefined": ["undefined"]},
     "assumptions": ["String() of symbolic floats/times in the accessor check uses boundary values; ints there are in (-1000, 1000)"],
     "outside": "tengo.Eval's templating; user Object implementations; longer histories",
     "stubs": COMMON_STUBS,
@@ -340,7 +340,7 @@ PROPS["C20"] = {
         "quick": {"timeout": "20s", "maxsteps": 12000000, "bounds": "precedence: `a OP1 b OP2 c` with OP1 of 1..2 arbitrary bytes and OP2 over the 19 documented binary operators; 19 unary/ternary groupings read off the AST (not the printer); literals: 1..3 arbitrary bytes starting with a digit, '.', or a quote, compared with go/scanner + strconv (executed by the engine); semicolons: a line of 1..2 arbitrary bytes followed by one of 8 newline / comment layouts (line comment, block comment, block then line comment, two block comments, multi-line block comment), compared with go/scanner; print/re-parse: 12 statement forms x expression trees of depth 1 over 14 leaves (incl. signed operands, so nested unary operators occur), 19 binary and 4 unary operators, ternary, parentheses", "cross": 2},
         "thorough": {"timeout": "60s", "maxsteps": 12000000, "bounds": "precedence with both operators of 1..2 arbitrary bytes; literals of 1..4 bytes; lines of 1..3 bytes; print/re-parse with expression depth 2", "cross": 3},
     },
-    "reach": {"C20_Precedence": ["left", "right"], "C20_UnaryTernary": ["unary"], "C20_Literals": ["literals"], "C20_PrintReparse": ["reparse"], "C20_Semicolons": ["semicolons"]},
+    "reach": {"C20_Precedence": ["left", "right"], "C20_UnaryTernary": ["unary"], "C20_Literals": ["literals"], "C20_LiteralFrames": ["literalframes"], "C20_PrintReparse": ["reparse"], "C20_Semicolons": ["semicolons"]},
     "assumptions": [
         "Go's own go/scanner and strconv are the reference for literals and semicolon insertion and are executed by the engine on the same symbolic bytes",
         "print/re-parse is a finite case split (no wide variable); map keys and module names are plain identifiers as the property requires",
@@ -352,8 +352,8 @@ PROPS["C20"] = {
 
 
 # ---- additions (appended to the bounds texts of both tiers)
-CALL_FAMILIES = (" Call families (gen2.go), run like the grammar family: (A) 1308 programs with two function literals f, g, each one of the 13 well-formed combinations of"
-                 " 5 signatures (no parameter, one, two, variadic, one + variadic) and 4 bodies that mention only parameters (bodies of different signatures compile to the same instructions),"
+CALL_FAMILIES = (" Call families (gen2.go), run like the grammar family: (A) 1668 programs with two function literals f, g, each one of the 15 well-formed combinations of"
+                 " 5 signatures (no parameter, one, two, variadic, one + variadic) and 5 bodies that mention only parameters (bodies of different signatures compile to the same instructions; one body fails at run time for a variadic second parameter),"
                  " called with 6 argument forms (0..3 arguments, a spread array, an argument + a spread array), at top level (all pairs) and inside a function (same-body pairs);"
                  " (B) 72 self-recursion programs f(i, n, acc): 6 per-activation preludes (closure over a parameter / over a local / a self-referencing local helper escaping the activation,"
                  " a write through a captured parameter, block-locals of sibling blocks one of which is a self-referencing function) x 6 forms of the recursive call (returned, discarded last statement,"
@@ -380,5 +380,26 @@ EXTRA = {
     "C05": " Endless programs (run with a context that is cancelled; natively the cancellation arrives 3 ms after the start): loop, for-in over a growing array, self tail recursion (returned, discarded, with builtin calls).",
 }
 for _k, _t in EXTRA.items():
+    for _tier in ("quick", "thorough"):
+        PROPS[_k]["tiers"][_tier]["bounds"] += _t
+
+EXTRA2 = {
+    "C01": " Aliasing family (C01_Alias, alias.go): 4 container sources x 15 derivations (copy, freeze, append, slices, +, splice of a copy, array/map literal element, freeze/copy of a wrapper, argument of a call, spread call, immutable(copy)) x writes through the source, through the derived value, and a second derivation from the same source - 420 programs, a, b symbolic.",
+    "C02": " Large functions (C02_LargeFunction): function bodies of 7281..7282 repeated statements (65529..65538 bytes of instructions, so jump operands and source-map keys cross 65535) x 3 endings that jump to or over the end of the body; static verifier + monitored run for both values of the final condition (per-path step budget 400M for these).",
+    "C04": " Optimizer totality (C03_Lemma, shared with C03): the real optimizeFunc on arbitrary instruction streams of 2..3 instructions (11 opcodes, symbolic operand bytes, every jump target) and of 4 instructions over {POP, RET 0/1, JMP, JMPF, ORJMP}: returns without panic.",
+    "C05": " For programs that never terminate on their own the poll at which the waiting goroutine first gets its turn is a choice (1..5); jump-only loops (for {}, for { continue }) are in the list.",
+    "C07": " Cancellation by the script's own last statement (mode 3: a host function closes the context, so the result and the cancellation are both pending when RunContext looks; natively the scenario is repeated 60 times); programs whose loop consists of jumps only (for {}, for { continue }, in a function, empty for-in body).",
+    "C08": " Method pairs (C08_Methods) also on two programs that update containers held by input variables in place.",
+    "C09": " Freeze nestings (C09_FreezeNest): every nesting of up to three of 5 container constructors (mutable / shallow-immutable arrays and maps) around a leaf - 155 shapes: freeze(o) == o, o unchanged, everything reachable immutable, and overwriting every mutable container reachable from o afterwards does not reach the result.",
+    "C10": " Copy nestings (C10_CopyNest): the same 155 shapes: copy(o) == o and overwriting every mutable container reachable from the copy (or from the original) leaves the other as it was. Same-object comparisons (C10_EqSelf): alias, the same argument twice, a shared element fetched from two containers, a container holding a function - for every runtime type incl. NaN.",
+    "C12": " A data-only object module that carries a module name of its own (application-defined Importable) among the modules.",
+    "C14": " C14_Marked also with a twin function literal of the same text (same instructions where the body mentions no literal) defined earlier and never called.",
+    "C15": " C15_CancelledRun: Set, RunContext cancelled by the script's last statement, Set, Run, Get on the object or a clone (natively 60 rounds). C15_AccessorStrings: 27 numeric-looking strings at and beyond the int64/float64 range and in other bases, through Variable accessors, a script variable and a clone (concrete boundary set).",
+    "C17": " Flag pairs (C17_FlagPairs): '%' + two symbolic flag bytes + ('*' with operand 12 / -12 | literal 12.2) + a symbolic verb byte x 8 argument values of every kind (signed and unsigned). '*' operands that are rejected or not ints (C17_StarOperand): 5 formats with a following directive x 9 operands (above 10^6 in magnitude, MinInt64, strings, bytes, float, bool), following int symbolic in -9..9.",
+    "C18": " Escape contexts: arbitrary bytes after a partial \\u escape (BMP, surrogate pair, in a key) and after a backslash; decoded strings with escapes are compared with the same Go string literal (strconv.Unquote) where the text is also a Go literal.",
+    "C19": " (the engine now implements the Go builtin clear: 200 regexp paths that ended as engine failures are explored)",
+    "C20": " Literal frames (C20_LiteralFrames): 1..2 (thorough 3) arbitrary bytes inside 8 char/string literal frames (hex, octal, unicode and single-character escapes, multi-byte runes).",
+}
+for _k, _t in EXTRA2.items():
     for _tier in ("quick", "thorough"):
         PROPS[_k]["tiers"][_tier]["bounds"] += _t
